@@ -77,3 +77,32 @@ func init() {
 	fmtInt("strconv.FormatInt")
 	fmtInt("strconv.FormatUint")
 }
+
+// concretizeStr forces every symbolic byte of a string to a concrete value (forking over all
+// feasible values); the result is a Go string.
+func (e *Engine) concretizeStr(v V, what string) string {
+	if s, ok := concStr(v); ok {
+		return s
+	}
+	if isOpaqueStr(v) {
+		e.unsupported("%s of an opaque string", what)
+	}
+	b := strBytes(v)
+	out := make([]byte, len(b))
+	for i, x := range b {
+		out[i] = byte(e.concInt(x))
+	}
+	return string(out)
+}
+
+func init() {
+	// strconv.ParseFloat: float arithmetic on symbolic digits is not encoded; the digits are
+	// enumerated by the solver instead (sound, may hit the fork bound on long free strings).
+	reg("strconv.ParseFloat", func(e *Engine, fr *frame, args []V) V {
+		if _, ok := concStr(args[0]); ok {
+			return e.callSSANoIntrinsic(fr, "strconv.ParseFloat", args)
+		}
+		s := e.concretizeStr(args[0], "strconv.ParseFloat")
+		return e.callSSANoIntrinsic(fr, "strconv.ParseFloat", []V{vStr(s), args[1]})
+	})
+}
